@@ -1,12 +1,15 @@
 """C06 — 5-DOF inverse keeps tool point/axis and J6 as requested."""
 from props import _ikcommon as K
-import common as C
-import kincorr
+from props import _finish as F
 ID = "C06"
-COQ_TARGETS = ["Exec/Kin.vo", "Exec/Finish.vo", "Properties/C06.vo"]
-THEOREMS = ["C06_inverse_5dof_j6", "C06_continuing_5dof_j6", "C06_dof5_dispatch", "C06_dof5_inverse_j6_zero"]
+COQ_TARGETS = ["Exec/Kin.vo", "Exec/Finish.vo", "Gen/Inverse.vo", "Properties/C06.vo"]
+THEOREMS = ["C06_inverse_5dof_j6", "C06_continuing_5dof_j6", "C06_dof5_dispatch", "C06_dof5_inverse_j6_zero",
+            "C06_concrete_inverse_5dof", "C06_concrete_continuing_5dof", "C06_twin5_in_table", "C06_fk_twin5"]
 LEVEL_TEXT = ("Coq theorems: every answer of the 5-DOF entry points carries exactly the caller's J6 (argument / previous J6 / 0 for plain "
-              "inverse of a 5-DOF robot) and a robot declared 5-DOF dispatches all four entry points to them")
+              "inverse of a 5-DOF robot) and a robot declared 5-DOF dispatches all four entry points to them; the same end to end for the "
+              "concrete kernel (finishing glue over the branch table GENERATED from inverse_intern_5_dof): every answer passed the position "
+              "check against the generated forward kinematics and carries the caller's J6; the generated table is closed under the wrist "
+              "flip (J4+pi, -J5), which keeps tool point and tool axis")
 LEVEL_NOTE = K.NOTE + "; tool point and axis accuracy and presence of the originating J1..J5 are decided by the oracle search (independent FK)"
 TECHNIQUE = K.TECH
 RULE = ("KIN records for entries 2,3 and for dof-5 robots; oracle cases: dof 5 and 6 robots x 4 entry points x J6 values x previous "
@@ -17,42 +20,9 @@ PARTIAL = ["axis accuracy of the 5-DOF kernel (not re-checked by the code) and c
 _corr, search = K.make("C06", lambda r: r["fn"] == "entry" and (r["entry"] >= 2 or r["robot"]["params"]["dof"] == 5))
 
 
-def finish5_expr(r):
-    import math
-    from fractions import Fraction
-    P = r["robot"]["params"]
-    sg = C.qlist([Fraction(s) for s in P["sg"]])
-    off = C.qlist([C.frac(h) for h in P["off"]])
-    rows = []
-    for row in r["theta5"]:
-        cells = []
-        for h in row:
-            x = C.f64(h)
-            cells.append(f"({C.qlit(Fraction(x))}, true)" if math.isfinite(x) else "(0, false)")
-        rows.append("[" + "; ".join(cells) + "]")
-    ver = "[" + "; ".join(f"({C.qlist([C.frac(h) for h in v['c']])}, {'true' if v['ok'] else 'false'})" for v in r["verdicts5"]) + "]"
-    return f"run_finish5 {sg} {off} {C.qlit(C.frac(r['j6used']))} [{'; '.join(rows)}] {ver}"
-
-
 def correspondence(tier, seed, n=None):
     """KIN correspondence of the entry points + the finishing glue of the 5-DOF kernel (Model/Finish.v finish5) on traced 8x5 tables:
     offsets/signs on five joints, finiteness, wrap to [-pi, pi] of J1..J5 only, the caller's J6 appended untouched, position check."""
     res = _corr(tier, seed, n)
-    recs = C.run_harness(["C06", tier, seed + 7, 3000 if tier == "thorough" else 400])
-    sel = [r for r in recs if r.get("prop") == "C06" and r.get("theta5") and not r.get("und5")]
-    res["undecided"] += len([r for r in recs if r.get("und5")])
-    outs = C.coq_eval("c06f", "From VF Require Import Exec.Finish.", [finish5_expr(r) for r in sel], shard=50)
-    for r, zs in zip(sel, outs):
-        model = kincorr.decode_sols(zs)
-        impl = [[C.f64(h) for h in s] for s in r["kernel5"]]
-        # J6 must be the caller's value exactly (no tolerance): the model appends it verbatim
-        exact6 = all(float(m[5]) == s[5] for m, s in zip(model, impl))
-        if kincorr.sols_equal(model, impl) and exact6:
-            res["compared"] += 1
-        else:
-            res["disagreements"].append({"why": f"5-DOF finishing glue: model {len(model)} rows, implementation {len(impl)} (or J6 not verbatim)",
-                                         "record": {k: r[k] for k in ("case", "robot", "j", "j6used", "kernel5")}})
-    res["evaluations"] += len(sel)
-    res["distribution"]["finish5_tables"] = len(sel)
-    res["failures"] += [r for r in recs if r.get("direct") == "fail"]
+    res["failures"] += F.finish5(res, tier, seed, 3000 if tier == "thorough" else 400)
     return res
